@@ -1,6 +1,7 @@
 import Driver.Proto
 import PqModel.FileCodecsTyped
 import PqModel.FileCodecsGo
+import PqModel.LogicalTime
 
 /-! C01 ops: one data page of a column of any physical type × value encoding, in the data page v1
 body framing or the v2 layout, through the file model's writer (`mkPage` + `pack`: MIRROR encoders)
@@ -119,6 +120,22 @@ def handle (toks : List String) : Option String :=
         | none => "err"
         | some p => s!"ok {showList (showTriple t) p}"
     | _, _, _, _, _, _, _, _ => "bad-op"
+  | ["c01.time", u, sec, nsec] => some <|
+    -- `c01.time <ms|us|ns> <sec> <nsec>` -> `ok <stored int64> <read-back sec> <read-back nsec>`
+    match (match u with | "ms" => some LogicalTime.TUnit.milli | "us" => some .micro | "ns" => some .nano | _ => none),
+        parseInt? sec, parseNat? nsec with
+    | some u, some sec, some nsec =>
+      let v := LogicalTime.toUnit u ⟨sec, nsec⟩
+      let t := LogicalTime.ofUnit u v
+      s!"ok {v.toInt} {t.sec} {t.nsec}"
+    | _, _, _ => "bad-op"
+  | ["c01.date", sec, nsec] => some <|
+    match parseInt? sec, parseNat? nsec with
+    | some sec, some nsec =>
+      let d := LogicalTime.toDays ⟨sec, nsec⟩
+      let t := LogicalTime.ofDays d
+      s!"ok {d.toInt} {t.sec} {t.nsec}"
+    | _, _ => "bad-op"
   | _ => none
 
 end Driver.Ops.C01
